@@ -257,8 +257,8 @@ def run(ctx):
         n = rng.randint(2, 5)
         do(ctx, 'C18.diag_pauli', ['torch', [gen.rstr(rng, n, nonzero=True), rng.choice([0, 2])], rng.randrange(n), rng.random() < 0.5, rng.choice(['orig', 'compiled', 'copy', 'compiled_copy'])],
            nontrivial=('b18', it))
-    for it in range(int(66 * B)):
-        what = ['pauli_trace', 'tokenize', 'to_qutip', 'len_div_radd', 'identity_zero', 'ghz', 'sample', 'reject', 'random_states', 'rcc', 'expect_pauli', 'batched_expect'][it % 12]
+    for it in range(int(78 * B)):
+        what = ['pauli_trace', 'tokenize', 'to_qutip', 'len_div_radd', 'identity_zero', 'ghz', 'sample', 'reject', 'random_states', 'rcc', 'expect_pauli', 'batched_expect', 'povm'][it % 13]
         do(ctx, 'api_surface', [what, rng.randint(1, 4), rng.randrange(10 ** 6)], nontrivial=('api', what, it))
     if not getattr(ctx, 'is_worker', False):
         do(ctx, 'C16.chi2_product', ['torch', 14400 if ctx.tier == 'quick' else 144000, 15], nontrivial='b16')
@@ -399,6 +399,19 @@ def c_api_surface(ctx, args):
                 got = TT.oST(s)
                 if S.tableau_invariant_py(got):
                     return bad('povm state invalid', got, 'valid')
+    elif what == 'povm':
+        # the back-evolved basis states of a circuit of FIXED gates: every sample of one povm() call is the same state as pyclifford's, and a separate object
+        N = max(2, n)
+        prog = [[0, gen.rgate(rng, ctx.model, N, kinds=('gen', 'fwd'))] for _ in range(rng.randint(2, 5))] + [[0, [[N - 1], [0, [[1, 1], 0]]]]]
+        ct = TT.build_circuit(N, prog)
+        cn = NPm.build_circuit(N, prog)
+        st = list(ct.povm(3))
+        sn = list(cn.povm(3))
+        if len({id(x) for x in st}) != 3:
+            return bad('povm yields the same object more than once', len({id(x) for x in st}), 3)
+        for k, (a_, b_) in enumerate(zip(st, sn)):
+            if TT.oST(a_) != NPm.oST(b_):
+                return bad('povm sample %d differs from pyclifford' % k, TT.oST(a_), NPm.oST(b_))
     elif what == 'expect_pauli':
         o = gen.rpauli(rng, n, herm=True)
         got = cplx(TT.STATE(t).expect(TT.P(o)))
